@@ -185,6 +185,8 @@ EvOp(x, bg, kind, role, key, ok, nx, toks, tags, n, i2, e2) ==
   [ ev |-> "op", x |-> x, bg |-> bg, kind |-> kind, role |-> role, k |-> KeyNo(key), ok |-> ok, nx |-> nx,
     fault |-> "", n |-> n, toks |-> toks, tags |-> tags, hop |-> 0, nkeys |-> NKeys(i2, e2), maxidx |-> MaxIdx(i2), t |-> now ]
 
+\* the gated operations (store operations and origin calls) in the order they happened, by exchange
+Gated(e) == e.ev \in {"op", "call"}
 Emit(e) == CASE e.ev = "begin" -> OnBegin(led, e, 0)
              [] e.ev = "op"    -> OnOp(led, e, 0)
              [] e.ev = "call"  -> OnCall(led, e, 0)
@@ -287,7 +289,7 @@ Pred(e) == [label |-> e.label, st |-> e.st, tok |-> e.tok, tag |-> e.tag, age |-
 \* the exchange is over: log the step, with the model's prediction, into hist
 Finish(e) ==
   /\ led' = Emit(e)
-  /\ hist' = Append(hist, [op |-> "req", rq |-> ex.rq, faults |-> FaultList, cancel |-> ex.rq.cancel, ans |-> ex.anss, pred |-> Pred(e)])
+  /\ hist' = Append(hist, [op |-> "req", x |-> ex.x, rq |-> ex.rq, faults |-> FaultList, cancel |-> ex.rq.cancel, ans |-> ex.anss, pred |-> Pred(e)])
   /\ ex' = Idle
 
 \* serveFromCache
@@ -394,7 +396,7 @@ SetIdx ==
                      ELSE RetEv("MISS", g.rep.st, g.tok, g.tag, g.rep.age, IF g.rep.age = None THEN 0 ELSE 1, HOf(g.rep), 0)
                ex1 == [ex EXCEPT !.ops = Append(ex.ops, "set")]
            IN /\ led' = OnRet(L2, ev, 0)
-              /\ hist' = Append(hist, [op |-> "req", rq |-> ex.rq, faults |-> FaultList, cancel |-> ex.rq.cancel, ans |-> ex.anss,
+              /\ hist' = Append(hist, [op |-> "req", x |-> ex.x, rq |-> ex.rq, faults |-> FaultList, cancel |-> ex.rq.cancel, ans |-> ex.anss,
                                        pred |-> [label |-> ev.label, st |-> ev.st, tok |-> ev.tok, tag |-> ev.tag, age |-> ev.age,
                                                  err |-> 0, ops |-> ex1.ops, ncalls |-> ex.ncalls]])
               /\ ex' = Idle
@@ -513,7 +515,7 @@ SwrServe ==
          nage == IF "swr_stored_age" \in Defects /\ r.age = None THEN 0 ELSE 1
          e == RetEv("STALE", r.st, ex.stored.tok, ex.stored.tag, age, nage, StoreH(r), 0)
      IN /\ led' = Emit(e)
-        /\ hist' = Append(hist, [op |-> "req", rq |-> ex.rq, faults |-> FaultList, cancel |-> ex.rq.cancel, ans |-> ex.anss, pred |-> Pred(e)])
+        /\ hist' = Append(hist, [op |-> "req", x |-> ex.x, rq |-> ex.rq, faults |-> FaultList, cancel |-> ex.rq.cancel, ans |-> ex.anss, pred |-> Pred(e)])
         /\ ex' = [ex EXCEPT !.pc = "bgorigin"]
   /\ UNCHANGED <<now, idx, ent, ctr>>
 
@@ -545,7 +547,8 @@ BgOriginT(a0, swrms) ==
                             !.na = ex.na + 1, !.ncalls = ex.ncalls + 1,
                             !.got = [k |-> a.k, rep |-> rep, tok |-> tok, tag |-> tag, t0 |-> now, t1 |-> now + dur]]
         \* the background answer belongs to the step that was already logged at the return
-        /\ hist' = [hist EXCEPT ![Len(hist)].ans = Append(hist[Len(hist)].ans, a0)]
+        /\ LET i == CHOOSE i \in 1..Len(hist) : hist[i].op = "req" /\ hist[i].x = ex.x IN
+           hist' = [hist EXCEPT ![i].ans = Append(hist[i].ans, a0)]
         /\ UNCHANGED <<now, idx, ent>>
 
 BgOrigin(a) == BgOriginT(a, 5000)
@@ -571,15 +574,20 @@ BgHandle ==
          failed == g.k \in {"err", "hang"}
          refs0 == IF "bg_drops_refs" \in Defects THEN <<>> ELSE ex.refs
          ri0 == IF "bg_drops_refs" \in Defects THEN 0 ELSE ex.ri
-     IN IF failed THEN ex' = Idle
-        ELSE IF g.rep.st = 304
+     IN IF failed THEN ex' = Idle /\ UNCHANGED led
+        ELSE IF g.rep.st = 304 /\ "bg_shares_response" \in Defects
+          THEN \* the pinned tree merged the 304 into the response object the caller already holds
+               /\ ex' = Idle
+               /\ led' = OnMut(led, [ev |-> "mut", x |-> ex.x, resp |-> 1, req |-> 0, t |-> now], 0)
+        ELSE UNCHANGED led /\
+        IF g.rep.st = 304
           THEN IF "no304_writeback" \in Defects \/ Has(ex.rq, "no-store") \/ (g.rep.ccp = 1 /\ Has(g.rep, "no-store")) THEN ex' = Idle
                ELSE ex' = [ex EXCEPT !.pc = "bgsetent", !.refs = refs0, !.ri = ri0,
                                      !.got = [k |-> "304m", rep |-> MergedRep(s.rep, g.rep), tok |-> s.tok, tag |-> g.tag, t0 |-> g.t0, t1 |-> g.t1]]
         ELSE IF g.rep.st \in SieStatuses /\ CodeSie(s.rep, ex.rq, ex.fr, now, g.rep) THEN ex' = Idle
         ELSE IF CanStore(g.rep, ex.rq) THEN ex' = [ex EXCEPT !.pc = "bgsetent", !.refs = refs0, !.ri = ri0]
         ELSE ex' = Idle
-  /\ UNCHANGED <<now, idx, ent, ctr, led, hist>>
+  /\ UNCHANGED <<now, idx, ent, ctr, hist>>
 
 BgSetEnt ==
   /\ ex.pc = "bgsetent"
